@@ -9,7 +9,7 @@ R5 span-scoped directives: enter pushes / exit pops under the same predicate; cl
 """
 from rulekit import Facts, where
 from rulekit.sym import PathEval, show
-from rulekit.query import relation_held, field_users, guards_of, closure_of_term, norm_cmp, recv_fields
+from rulekit.query import bool_paths, relation_held, field_users, guards_of, closure_of_term, norm_cmp, recv_fields
 
 D = "tracing_subscriber::filter::directive::"
 E = "tracing_subscriber::filter::env::"
@@ -224,7 +224,7 @@ def r3(ck, F):
             pat = show_term(b, sw[0]["argv"][1])
             ok = ("arg2" in recv and "arg1" not in recv) and ("arg1" in pat and "target" in pat)
         # a directive whose target does not prefix-match never cares
-        rows = [(dict((show(c[0]).split("(")[0], c[1] != 0) for c in p.conds), show(p.ret)) for p in PathEval(b).run() if p.end == "return"]
+        rows = [(dict((show(c[0]).split("(")[0], c[1] != 0) for c in p.conds), show(p.ret)) for p in bool_paths(b) if p.end == "return"]
         ok = ok and all(r == "0" for c, r in rows if c.get("starts_with") is False)
         if ok:
             ck.ok("C11.R3", "%s: metadata.target.starts_with(directive.target); mismatch never cares" % nm, fn=b.path)
@@ -240,7 +240,7 @@ def r3(ck, F):
                     if "field_names" in t and ("is_empty(" in t or "len(" in t):
                         return True
                 return False
-            acc = [p for p in PathEval(b).run() if p.end == "return" and show(p.ret) != "0"]
+            acc = [p for p in bool_paths(b) if p.end == "return" and show(p.ret) != "0"]
             k = "cares_about_target: a directive with field names never matches a bare target (would_enable agrees with filtering)"
 
             def empty_true(p):      # ... and with the right polarity: accepted because the list *is* empty
@@ -274,7 +274,7 @@ def r3(ck, F):
             k2 = "StaticDirective: an event matches a directive with field names only if it has every one of them"
             badp = 0
             nacc = 0
-            for pth in PathEval(b, max_visits=3).run():
+            for pth in bool_paths(b, max_visits=3):
                 if pth.end != "return" or show(pth.ret) == "0":
                     continue
                 cs = [(show(c[0]), c[1]) for c in pth.conds]
@@ -290,7 +290,7 @@ def r3(ck, F):
             # ... with the right polarity: a name the event does not have rejects it, a name it has lets the scan go on
             k3 = "StaticDirective: a missing field name rejects the event, a present one does not"
             wrong = []
-            for pth in PathEval(b).run():
+            for pth in bool_paths(b):
                 look = [(show(c[0]), c[1]) for c in pth.conds if "field(fields(arg2)" in show(c[0])]
                 if not look:
                     continue
@@ -300,6 +300,15 @@ def r3(ck, F):
                     wrong.append("rejects after *finding* the field (%s = %s)" % (t[:50], v))
                 if missing and not (pth.end == "return" and show(pth.ret) == "0"):
                     wrong.append("goes on (%s) after finding a field missing" % pth.end)
+            for cl in F.closures_of(b):
+                for q in PathEval(cl).run():
+                    if q.end == "return" and q.ret is not None and "field(" in show(q.ret):
+                        t = show(q.ret)
+                        used_all = any(show(c[0]).startswith("all(") for pp in bool_paths(b) for c in pp.conds)
+                        if used_all and not t.startswith("is_some("):
+                            wrong.append("the per-name test handed to all() is %s" % t[:60])
+                        if not used_all and any(show(c[0]).startswith("any(") for pp in bool_paths(b) for c in pp.conds) and not t.startswith("is_none("):
+                            wrong.append("the per-name test handed to any() is %s" % t[:60])
             if wrong:
                 ck.bad("C11.R3", k3, where(b.raw["sp"]), "; ".join(sorted(set(wrong))) + ": `target[field]=level` then applies to exactly the events that lack the field", fn=b.path)
             else:
